@@ -10,6 +10,7 @@ CONSTANTS
   HasReader = TRUE
   ClosesSocket = TRUE
   PopAtomic = TRUE
+  ParkWakes = "conn"
   Noise = {"silent", "unsolicited", "garbage"}
 INVARIANTS NoFalseError SlotsSane OnceEach SockOnce DoneOnceIfReaderOnly
 PROPERTIES Ends CloseCompletes
